@@ -214,6 +214,9 @@ func (e *Env) RunBin(bin string, worker int, s *scn.Scenario) *Run {
 	if long, _ := s.Rig["long"].(bool); long {
 		budget, backstop = longCPUBudget, longBackstop
 	}
+	if v, ok := s.Rig["cpu_s"].(float64); ok && v > 0 { // rigs that batch much work per process state their own budget
+		budget = time.Duration(v) * time.Second
+	}
 	cmd := exec.Command(bin, s.Args...)
 	cmd.Dir = dir
 	// GOMAXPROCS=1: with several Ps the faketime runtime can livelock under load (measured: 484 of
